@@ -58,10 +58,11 @@ def attribute(text, root_names):
         m = REC.match(raw)
         if m:
             kind, body = m.group(1), m.group(4)
+            # (the name as it stands: a target's name may end in white space)
             if kind == "do":
-                cur = body.strip()
+                cur = body
             elif kind == "resumed":
-                cur = body.strip()
+                cur = body
             elif kind == "done":
                 pass
             seq.append((kind, body))
